@@ -141,6 +141,7 @@ class Check:
 
     def prove(self, name, pc, neg_goal, timeout_ms=120000, extra=(), prefer=(), allow_unknown=False):
         """discharge: pc ∧ ¬goal must be unsat.  Returns None if proved, else the z3 model."""
+        name = getattr(self, 'name_prefix', '') + name
         s = z3.Solver()
         s.add(lit_axioms()); s.add(list(pc)); s.add(list(extra)); s.add(neg_goal)
         r, dt = self._solve(s, name, timeout_ms)
@@ -274,6 +275,42 @@ def load_known(pid):
 
 # ---------------------------------------------------------------------- native replay (E3)
 _replay_built = {}
+
+
+_PAR = {}
+
+
+def _par_worker(i):
+    import time as _t, traceback
+    from mirsym.core import Unsupported
+    chk, fn, tasks = _PAR['chk'], _PAR['fn'], _PAR['tasks']
+    sub = chk.fork()
+    t0 = _t.time()
+    extra = {}
+    try:
+        extra = fn(sub, tasks[i]) or {}
+    except Inconclusive as e:
+        return dict(sub.summary(), inconclusive=f'{tasks[i]}: {e}', task_s=_t.time() - t0, extra={})
+    except Unsupported as e:
+        return dict(sub.summary(), inconclusive=f'{tasks[i]}: unsupported: {e}', task_s=_t.time() - t0, extra={})
+    except Exception as e:
+        return {'inconclusive': f'{tasks[i]}: internal error {e!r} {traceback.format_exc()[-1500:]}'}
+    return dict(sub.summary(), task_s=_t.time() - t0, extra=extra)
+
+
+def parallel(chk, tasks, fn, jobs=None):
+    """run fn(sub_check, task) for every task in forked workers (the executor and its MIR are shared copy-on-write); results are
+    absorbed into chk.  -> (list of per-task `extra` dicts, list of inconclusive reasons)"""
+    import multiprocessing as mp
+    _PAR.update(chk=chk, fn=fn, tasks=list(tasks))
+    extras, incon = [], []
+    if not _PAR['tasks']: return extras, incon
+    with mp.get_context('fork').Pool(jobs or int(os.environ.get('VERIF_JOBS', '16'))) as pool:
+        for res in pool.imap_unordered(_par_worker, range(len(_PAR['tasks'])), chunksize=1):
+            if 'inconclusive' in res: incon.append(res['inconclusive'])
+            if 'samples' in res:
+                chk.absorb(res); extras.append(res.get('extra') or {})
+    return extras, incon
 
 
 def replay_bin(profile='dev'):
